@@ -421,8 +421,26 @@ PedClone ==
    lam |-> NoLam(3), err |-> << <<U, U>>, << Z, <<1, 4>> >>, << U, <<1, 100>> >> >>, f |-> F3skew, haps |-> Haps3,
    reads |-> << << R(<<-1, 1, -1>>, 1) >>, <<>>, << R(<<1, -1, -1>>, 1), R(<<-1, -1, 1>>, 1) >> >>]
 
-PedsQuick == << PedFounders, PedDuo, PedTrio2x, PedTrio2xE0, PedSelfing, PedMixed2, PedHalfSibs, PedSelfing4x, PedTwoGen >>
-PedsThorough == PedsQuick \o << PedTetraLam, PedClone, PedMixed3 >>
+PedMixedDuo ==      \* unbalanced tau with ONE known parent: 2x founder, 3x child of (1, unknown), tau = (1,2)
+  [name |-> "mixed_duo_2x_3x", K |-> 2, n |-> 2, ploidy |-> <<2, 3>>,
+   par |-> << <<0, 0>>, <<1, 0>> >>, tau |-> << <<1, 1>>, <<1, 2>> >>,
+   lam |-> NoLam(2), err |-> << <<U, U>>, << <<1, 4>>, U >> >>, f |-> F2skew, haps |-> Haps2,
+   reads |-> << << R(<<1, -1>>, 1) >>, << R(<<-1, 0>>, 1), R(<<0, 1>>, 1) >> >>]
+PedTrio2xB ==
+  [name |-> "trio2x_b", K |-> 3, n |-> 3, ploidy |-> <<2, 2, 2>>,
+   par |-> << <<0, 0>>, <<0, 0>>, <<1, 2>> >>, tau |-> << <<1, 1>>, <<1, 1>>, <<1, 1>> >>,
+   lam |-> NoLam(3), err |-> << <<U, U>>, <<U, U>>, << <<1, 3>>, <<2, 3>> >> >>,
+   f |-> << <<1, 5>>, <<3, 10>>, <<1, 2>> >>, haps |-> Haps3,
+   reads |-> << << R(<<-1, -1, 1>>, 1), R(<<0, 1, -1>>, 1) >>, <<>>, << R(<<1, -1, -1>>, 2) >> >>]
+PedDuo4xLam ==      \* unknown p, known tetraploid q with double reduction
+  [name |-> "duo4x_lambda", K |-> 2, n |-> 2, ploidy |-> <<4, 4>>,
+   par |-> << <<0, 0>>, <<0, 1>> >>, tau |-> << <<2, 2>>, <<2, 2>> >>,
+   lam |-> << <<Z, Z>>, << Z, <<1, 4>> >> >>, err |-> << <<U, U>>, << U, <<1, 4>> >> >>, f |-> F2skew, haps |-> Haps2,
+   reads |-> << << R(<<1, -1>>, 1) >>, << R(<<-1, 1>>, 1) >> >>]
+
+PedsQuick == << PedFounders, PedDuo, PedTrio2x, PedTrio2xE0, PedSelfing, PedMixed2, PedHalfSibs, PedSelfing4x, PedTwoGen,
+               PedMixedDuo >>
+PedsThorough == PedsQuick \o << PedTetraLam, PedClone, PedMixed3, PedTrio2xB, PedDuo4xLam >>
 PedsBalanced == << PedTrio2x, PedSelfing, PedHalfSibs >>
 PedsMixedOnly == << PedMixed2 >>
 PedsSelfOnly == << PedSelfing >>
